@@ -93,6 +93,8 @@ def oracle_stmt(orc, key, fr):
     if fr.kind == 'bf' and not wrote and (n >= maxn - 1 or h.chance(25)):
         if n >= maxn and h.chance(orc.get('nocreate', 6)):
             return {'s': 'return'}
+        if orc.get('nocreate2') and n >= maxn - 1 and h.chance(orc['nocreate2']):
+            return {'s': 'return'}      # the function ends without ever trying to create its target
         return {'s': 'write', 'c': h.pick(orc.get('contents', CONTENTS)), 'sz': h.pick(orc.get('sizes', SIZES))}
     if n >= maxn:
         if h.chance(orc.get('raise', 10)):
@@ -178,7 +180,7 @@ def rand_ext(rnd, orc, cache):
 
 
 FOREIGN = [['fz'], ['d', 'fz'], ['d', 'e', 'fz'], ['g', 'fz']]
-LONGT = [['LONG', 'x'], ['d', 'LONG', 'y'], ['g', 'h', 'LONG', 'w']]
+LONGT = [['LONG', 'x'], ['d', 'LONG', 'y'], ['g', 'h', 'LONG', 'w'], ['d', 'LONG'], ['g', 'h', 'LONG']]
 
 PROFILES = {
     # name: parameters (see make_scenario)
@@ -190,7 +192,7 @@ PROFILES = {
                 'p_vers': 0.0},
     'versions': {'p_same_root': 0.9, 'p_crash': 0.0, 'ext': [0, 0, 0, 1], 'builds': [3, 4], 'p_clean': 0.0,
                  'p_vers': 0.8, 'maxstmts': [3, 4, 5]},
-    'bfcontract': {'long': True, 'p_probe': 0.4, 'raise': 30, 'nocreate': 25, 'nonjson': 10,
+    'bfcontract': {'long': True, 'p_probe': 0.4, 'raise': 30, 'nocreate': 25, 'nocreate2': 18, 'nonjson': 10,
                    'p_crash': 0.1},
     # foreign files at build targets + external removal of directory trees + failing builds
     'forcrash': {'structured': True, 'foreign': True, 'foreign_at_targets': True, 'p_crash': 0.6, 'p_clean': 0.1,
@@ -208,6 +210,8 @@ PROFILES = {
     'refuse': {'refuse': True},
     'keys': {'keys': True},
     'nested': {'nested': True},
+    # nested build_file calls below the enclosing function's own in-progress target
+    'selfnest': {'selfnest': True},
     'swap': {'swap': True},
     # the cache file lives in a directory of its own that the build has to create (C12, C01, C02)
     'subcache': {'subcache': True, 'p_clean': 0.35, 'p_crash': 0.25, 'p_double_clean': 0.3},
@@ -216,6 +220,8 @@ PROFILES = {
     # C17: calls on builders whose function has ended (sequentially: inside later code of the build and after build returns)
     'stale': {'stale': True, 'p_crash': 0.2, 'p_clean': 0.1, 'raise': 20, 'builds': [2, 3]},
     'threaddup': {'threads': True, 'p_dup': 0.85},
+    # threads that rebuild existing outputs (each moves an old output aside), often followed by a rollback
+    'threadsrb': {'threads_rb': True},
     # base histories for fault injection (every eligible library call is a fault point)
     'fault': {'p_crash': 0.1, 'p_clean': 0.1, 'raise': 10, 'ext': [0, 1, 1, 2], 'builds': [2, 3],
               'catch': 80},
@@ -493,6 +499,35 @@ def make_threads(seed, profile):
             'steps': steps, 'combo': combo}
 
 
+def make_threads_rb(seed, profile):
+    """Concurrent *re*-builds (C09): a committed first build leaves 2-3 outputs; the next build rebuilds them from
+    cooperative threads with other functions (every thread first moves an old output aside), and often fails
+    afterwards, so that the rollback has to put every old output back; then an unchanged rebuild and a clean."""
+    rnd = random.Random('threadsrb:%s' % seed)
+    nb = rnd.choice([2, 2, 3])
+    targets = rnd.sample(THREAD_TARGETS, nb)
+    first = [{'s': 'bf', 'p': t, 'f': 'fW', 'args': [i], 'cmp': rnd.choice(['METADATA', 'HASH']), 'catch': True}
+             for i, t in enumerate(targets)]
+    second = [{'s': 'bf', 'p': t, 'f': rnd.choice(['fW2', 'fW2', 'fR', 'fW']), 'args': [10 + i],
+               'cmp': rnd.choice(['METADATA', 'HASH'])} for i, t in enumerate(targets)]
+    steps = []
+    if rnd.random() < 0.5:
+        steps.append({'op': 'build', 'name': 'B', 'vers': {}, 'root': first + [{'s': 'return'}]})
+    else:
+        steps.append({'op': 'build', 'name': 'B', 'vers': {}, 'root': [
+            {'s': 'par', 'branches': [dict(b, catch=False) for b in first], 'preempt': []}, {'s': 'return'}]})
+    if rnd.random() < 0.3:
+        steps.append({'op': 'ext', 'do': 'write', 'p': rnd.choice(targets), 'c': 'c7', 'sz': 6})
+    par = {'s': 'par', 'branches': second, 'preempt': []}
+    crash = rnd.random() < 0.6
+    steps.append({'op': 'build', 'name': 'B', 'vers': {}, 'root': [par, {'s': 'raise'} if crash else {'s': 'return'}]})
+    steps.append({'op': 'build', 'name': 'B', 'vers': {}, 'root': [json.loads(json.dumps(par)), {'s': 'return'}]})
+    if rnd.random() < 0.7:
+        steps.append({'op': 'clean', 'name': 'B'})
+    return {'id': '%s-%d' % (profile, seed), 'cache': ['k'], 'universe': [], 'threads': True, 'prog': THREAD_PROGS,
+            'steps': steps, 'combo': True}
+
+
 def make_straggler(seed, profile):
     """C17: the root function hands its builder to another thread and returns (or raises) while that thread
     keeps calling methods; later builds and clean reveal whether completed calls are in the record."""
@@ -664,14 +699,73 @@ def make_nested(seed, profile):
     return {'id': '%s-%d' % (profile, seed), 'cache': ['k'], 'universe': UNIVERSE, 'prog': prog, 'steps': steps}
 
 
+def make_selfnest(seed, profile):
+    """build_file functions that treat their own (in-progress) target as a directory: a nested build_file for a
+    path below the enclosing target, before or after the function wrote it; on top of a foreign file, an old
+    output or an old directory at that position; committed, caught or rolled back, then rebuilt unchanged."""
+    rnd = random.Random('selfnest:%s' % seed)
+    T = rnd.choice([['x'], ['d', 'y'], ['g', 'w'], ['d', 'e', 'z']])
+    below = [T + ['c'], T + ['c', 'e'], T + ['k']]
+    def q():
+        return {'s': 'q', 'kind': rnd.choice(['exists', 'is_file', 'is_dir', 'list_dir', 'get_size', 'walk']),
+                'p': rnd.choice([T, T[:-1], below[0], below[1]]), 'td': False}
+    prog = {'inW': [{'s': 'write', 'c': 'c1', 'sz': 4}, {'s': 'return'}],
+            'inR': [{'s': 'write', 'c': 'c2', 'sz': 4}, {'s': 'raise'}],
+            'in0': [{'s': 'return'}],
+            # the nested function looks at the enclosing target and its surroundings before / after writing
+            'inQ': [q(), q(), {'s': 'write', 'c': 'c1', 'sz': 6}, q(), {'s': 'return'}],
+            'plain': [{'s': 'write', 'c': 'c3', 'sz': 6}, {'s': 'return'}]}
+    body = []
+    when = rnd.choice(['after', 'after', 'before', 'both', 'never'])
+    if when in ('after', 'both'):
+        body.append({'s': 'write', 'c': 'c1', 'sz': 6})
+    for i in range(rnd.choice([1, 1, 2])):
+        body.append({'s': 'bf', 'p': rnd.choice(below), 'f': rnd.choice(['inW', 'inQ', 'inQ', 'inR', 'in0']), 'args': [i],
+                     'cmp': rnd.choice(['METADATA', 'HASH']), 'catch': rnd.random() < 0.8})
+        if rnd.random() < 0.4:
+            body.append(q())
+    if when in ('before', 'both'):
+        body.append({'s': 'write', 'c': 'c2', 'sz': 4})
+    body.append({'s': 'raise'} if rnd.random() < 0.25 else {'s': 'return'})
+    prog['outer'] = body
+    steps = []
+    pre = rnd.choice(['none', 'foreign', 'old', 'old', 'olddir', 'foreigndir'])
+    if pre == 'foreign':
+        steps.append({'op': 'ext', 'do': 'write', 'p': T, 'c': 'c9', 'sz': 4})
+    elif pre == 'foreigndir':
+        steps.append({'op': 'ext', 'do': 'mkdir', 'p': T})
+    elif pre == 'old':
+        steps.append({'op': 'build', 'name': 'B', 'vers': {}, 'root': [
+            {'s': 'bf', 'p': T, 'f': 'plain', 'args': [0], 'cmp': 'HASH'}, {'s': 'return'}]})
+    elif pre == 'olddir':
+        steps.append({'op': 'build', 'name': 'B', 'vers': {}, 'root': [
+            {'s': 'bf', 'p': below[0], 'f': 'plain', 'args': [0], 'cmp': 'HASH'}, {'s': 'return'}]})
+    root = [{'s': 'bf', 'p': T, 'f': 'outer', 'args': [1], 'cmp': rnd.choice(['METADATA', 'HASH']),
+             'catch': rnd.random() < 0.7}]
+    if rnd.random() < 0.5:
+        root.append(q())
+    crash = rnd.random() < 0.4
+    steps.append({'op': 'build', 'name': 'B', 'vers': {}, 'root': root + [{'s': 'raise'} if crash else {'s': 'return'}]})
+    steps.append({'op': 'build', 'name': 'B', 'vers': {}, 'root': [dict(x, catch=True) if x['s'] == 'bf' else dict(x)
+                                                                  for x in root] + [{'s': 'return'}]})
+    if rnd.random() < 0.5:
+        steps.append({'op': 'clean', 'name': 'B'})
+    universe = DIRS + LEAVES + [x for x in below if x not in LEAVES]
+    return {'id': '%s-%d' % (profile, seed), 'cache': ['k'], 'universe': universe, 'prog': prog, 'steps': steps}
+
+
 def make_scenario(seed, profile='general'):
     P = PROFILES[profile]
     if P.get('swap'):
         return make_swap(seed, profile)
     if P.get('nested'):
         return make_nested(seed, profile)
+    if P.get('selfnest'):
+        return make_selfnest(seed, profile)
     if P.get('straggler'):
         return make_straggler(seed, profile)
+    if P.get('threads_rb'):
+        return make_threads_rb(seed, profile)
     if P.get('threads'):
         return make_threads(seed, profile)
     if P.get('keys'):
@@ -697,6 +791,7 @@ def make_scenario(seed, profile='general'):
         'maxstmts': rnd.choice(P.get('maxstmts', [2, 3, 4, 5])),
         'nargs': 2,
         'raise': P.get('raise', 10), 'nocreate': P.get('nocreate', 6), 'nonjson': P.get('nonjson', 2),
+        'nocreate2': P.get('nocreate2', 0),
         'p_probe': int(100 * P.get('p_probe', 0) / 4),
     }
     if P.get('exotic'):
